@@ -121,6 +121,17 @@ func verifEchoMux(calls *int) verifAssign {
 	}}
 }
 
+// verifGatedEchoMux: like verifEchoMux, with a "slow" method that waits for gate.
+func verifGatedEchoMux(calls *int, gate chan struct{}) verifAssign {
+	m := verifEchoMux(calls)
+	echo := m["echo"]
+	m["slow"] = func(ctx context.Context, req *jrpc2.Request) (any, error) {
+		<-gate
+		return echo(ctx, req)
+	}
+	return m
+}
+
 // Harness_C18_bridge: one HTTP request through Bridge.ServeHTTP.
 func Harness_C18_bridge() {
 	verifMapOrders(false)
@@ -193,16 +204,27 @@ func Harness_C18_bridge() {
 func Harness_C18_concurrent() {
 	verifMapOrders(false)
 	calls := 0
-	b := NewBridge(verifEchoMux(&calls), nil)
-	id := nondetToken("shared-id")
-	k := tokKind(id)
-	assume(k == tkNumber || k == tkString)
-	mk := func(tag string) *verifBMember {
+	gate := make(chan struct{})
+	b := NewBridge(verifGatedEchoMux(&calls, gate), nil)
+	// the shared id is arbitrary, or collides with the small integers the
+	// bridge's own client uses internally
+	var id json.RawMessage
+	switch nondetChoice("id-form", 3) {
+	case 0:
+		id = nondetToken("shared-id")
+		k := tokKind(id)
+		assume(k == tkNumber || k == tkString)
+	case 1:
+		id = tokLit("1")
+	case 2:
+		id = tokLit("2")
+	}
+	mk := func(tag, method string) *verifBMember {
 		m := &verifBMember{class: 0, id: id, params: tokArray([]json.RawMessage{tokString(tag)}), respond: true}
-		m.raw = tokObject([]string{"jsonrpc", "id", "method", "params"}, []json.RawMessage{tokString("2.0"), id, tokString("echo"), m.params})
+		m.raw = tokObject([]string{"jsonrpc", "id", "method", "params"}, []json.RawMessage{tokString("2.0"), id, tokString(method), m.params})
 		return m
 	}
-	m1, m2 := mk("first"), mk("second")
+	m1, m2 := mk("first", "echo"), mk("second", "slow")
 	w1, w2 := &verifWriter{}, &verifWriter{}
 	serve := func(w *verifWriter, m *verifBMember) {
 		hdr := http.Header{}
@@ -210,8 +232,17 @@ func Harness_C18_concurrent() {
 		b.ServeHTTP(w, &http.Request{Method: "POST", Header: hdr, Body: &verifBody{data: m.raw}})
 	}
 	done := 0
-	go func() { serve(w1, m1); done++ }()
-	go func() { serve(w2, m2); done++ }()
+	// the slow caller is in flight while the fast one is served completely
+	if nondetBool("slow-first") {
+		go func() { serve(w2, m2); done++ }()
+		quiesce()
+		go func() { serve(w1, m1); done++ }()
+	} else {
+		go func() { serve(w1, m1); done++ }()
+		go func() { serve(w2, m2); done++ }()
+	}
+	quiesce()
+	close(gate)
 	quiesce()
 	vassert(done == 2 && calls == 2, "both callers are served, each handler once")
 	verifCheckBridgeBody(w1, []*verifBMember{m1})
